@@ -213,7 +213,10 @@ impl Directive {
                 if !context.last_segment().unwrap().borrow().is_empty() {
                     context.add_segment(Segment::new(new_type));
                 } else {
-                    context.last_segment().unwrap().borrow_mut().t = new_type;
+                    // reuse the still empty segment, but not an origin given for the old segment type
+                    let last_segment = context.last_segment().unwrap();
+                    last_segment.borrow_mut().t = new_type;
+                    last_segment.borrow_mut().address = 0;
                 }
             }
             Directive::Device => {
